@@ -192,6 +192,8 @@ def _is_mask(k):
         name = f[2] if f[0] == "attr" else (f[1].split(".")[-1] if f[0] == "global" else None)
         if f[0] == "attr" and name in ("flatten", "ravel", "squeeze", "to_numpy", "copy") and not k[2]:
             return _is_mask(f[1])  # a reshaped mask is a mask
+        if f[0] == "attr" and name in ("all", "any") and dict(k[3]).get("axis") == ("const", 1):
+            return _is_mask(f[1])  # row-wise all / any of a truth table: one truth value per row
         return name in _MASK_CALLS
     if k[0] == "attr" and k[2] == "values":
         return _is_mask(k[1])
@@ -224,6 +226,13 @@ def _synonym(ft, args, kws):
             return ("call", ("global", "numpy.clip"), (x, lo, hi), ())
         if name == "agg" and args == (("const", "sum"),) and not kws and x[0] == "call" and x[1][0] == "attr" and x[1][2] == "groupby":
             return ("call", ("attr", x, "sum"), (), ())
+        if name == "sum" and not args and not kws and x[0] == "sub" and x[2][0] == "list" and x[2][1] and x[1][0] == "call" and x[1][1][0] == "attr" and x[1][1][2] == "groupby":
+            # groupby(k)[[c, ..]].sum() is the named aggregation groupby(k).agg(c=(c, "sum"), ..): one spelling
+            cols = x[2][1]
+            pairs = tuple((c_, ("tuple", (c_, ("const", "sum")))) for c_ in cols)
+            if all(c_[0] == "const" and isinstance(c_[1], str) and c_[1].isidentifier() for c_ in cols):
+                return ("call", ("attr", x[1], "agg"), (), tuple(sorted(((c_[1], v_) for c_, v_ in pairs), key=lambda kv: kv[0])))
+            return ("call", ("attr", x[1], "agg"), (), ((None, ("dict", pairs)),))
         if name == "merge" and "left_on" in kw and kw.get("left_on") == kw.get("right_on") and "on" not in kw:
             k2 = tuple(sorted([(a_, b_) for a_, b_ in kws if a_ not in ("left_on", "right_on")] + [("on", kw["left_on"])], key=lambda kv: kv[0]))
             return ("call", ft, args, k2)
@@ -241,8 +250,8 @@ def _synonym(ft, args, kws):
             lo = args[1] if len(args) > 1 else kw.get("a_min", ("const", None))
             hi = args[2] if len(args) > 2 else kw.get("a_max", ("const", None))
             return None if (len(args) == 3 and not kws) else ("call", ft, (args[0], lo, hi), ())
-        if name == "pandas.concat" and kw.get("axis") == ("const", 0):
-            return ("call", ft, args, tuple(kv for kv in kws if kv[0] != "axis"))
+        if name == "pandas.concat" and (kw.get("axis") == ("const", 0) or kw.get("ignore_index") == ("const", False)):
+            return ("call", ft, args, tuple(kv for kv in kws if not (kv[0] == "axis" and kv[1] == ("const", 0)) and not (kv[0] == "ignore_index" and kv[1] == ("const", False))))
         if name == "pandas.concat" and kw.get("ignore_index") == ("const", True) and kw.get("axis", ("const", 0)) == ("const", 0):
             inner = ("call", ft, args, tuple(kv for kv in kws if kv[0] not in ("ignore_index", "axis")))
             return ("call", ("attr", inner, "reset_index"), (), (("drop", ("const", True)),))
@@ -777,6 +786,8 @@ class _Eval:
         if k[0] == "tuple" and len(k[1]) == 2 \
                 and k[1][0] == ("slice", ("const", None), ("const", None), ("const", None)) and k[1][1] == ("const", None):
             return ("call", ("attr", v, "reshape"), (("const", -1), ("const", 1)), ())  # x[:, None] of a vector is x.reshape(-1, 1)
+        if v[0] == "attr" and v[2] == "index" and _is_mask(k):
+            return ("attr", ("sub", v[1], k), "index")  # frame.index[mask] is frame[mask].index
         if k[0] == "const":
             nt = self._namedtuple_index(v, k[1])
             if nt is not None:
@@ -1491,6 +1502,12 @@ def subst(term, mapping, _memo=None):
     if _memo is None:
         _memo = {}
     if not isinstance(term, tuple):
+        return term
+    if term and term[0] == "const":
+        # literals are leaves; and 1 == True == 1.0 as dictionary keys, so they must not go through the memo
+        for k_, v_ in mapping.items():
+            if k_ == term and type(k_[1]) is type(term[1]):
+                return v_
         return term
     if term in mapping:
         return mapping[term]
